@@ -522,6 +522,134 @@ theorem request_response_delivers (p : Params) (h : IbWF p) (toggle dest mtype r
   simp only [hsrc, hdst, and_self, if_true]
 
 
+/-! ## Interbus: `get_register` / `set_register` -/
+
+/-- the message-type constants `get_register` / `set_register` compare with are distinct members of `MessageType` -/
+def ibTypesWf (p : Params) : Bool :=
+  p.tNack != p.tDatagram && p.tNack != p.tAck && p.tAck != p.tDatagram
+  && p.msgTypes.contains p.tNack && p.msgTypes.contains p.tAck && p.msgTypes.contains p.tDatagram
+  && p.msgTypes.contains p.tRead && p.msgTypes.contains p.tWrite && p.msgTypes.all (· < 256)
+
+theorem gen_interbus_types : ibTypesWf Gen.Layouts.interbus = true := by decide
+
+/-- **`get_register` returns only the data of a DATAGRAM for the asked register from the asked module** -/
+theorem getRegister_sound (p : Params) (tg dest reg : Nat) (t t' : Tr) (tg' : Nat) (d : Bytes)
+    (h : getRegister p tg dest reg t = (.ok d, tg', t')) :
+    ∃ r, requestResponse p tg dest p.tRead reg [] t = (.ok r, tg', t') ∧
+      r.mtype = p.tDatagram ∧ r.mtype ≠ p.tNack ∧ r.reg = reg ∧ r.data = d ∧ r.src = dest ∧ r.dest = p.hostBase + tg' := by
+  unfold getRegister at h
+  have hrr := request_response p tg dest p.tRead reg [] t
+  split at h
+  · simp at h
+  · rename_i r tg1 t1 heq
+    rw [heq] at hrr
+    simp only at hrr
+    split at h; · simp at h
+    split at h; · simp at h
+    split at h; · simp at h
+    rename_i h1 h2 h3
+    simp only [Prod.mk.injEq, Except.ok.injEq] at h
+    obtain ⟨hd, htg, ht⟩ := h
+    subst htg ht
+    exact ⟨r, heq, by simpa using h2, h1, by simpa using h3, hd, hrr.1, hrr.2.1⟩
+
+/-- **a NACK, a BUSY, any other type, or another register number raises** (QMI_InstrumentException) -/
+theorem getRegister_rejects (p : Params) (tg dest reg : Nat) (t t' : Tr) (tg' : Nat) (r : Msg)
+    (hrr : requestResponse p tg dest p.tRead reg [] t = (.ok r, tg', t'))
+    (hbad : r.mtype ≠ p.tDatagram ∨ r.reg ≠ reg) :
+    getRegister p tg dest reg t = (.error .instrument, tg', t') := by
+  unfold getRegister
+  rw [hrr]
+  simp only
+  by_cases h1 : r.mtype = p.tNack
+  · simp [h1]
+  · by_cases h2 : r.mtype = p.tDatagram
+    · have h3 : r.reg ≠ reg := by rcases hbad with h | h; exact absurd h2 h; exact h
+      simp [h1, h2, h3]
+    · simp [h1, h2]
+
+theorem getRegister_error (p : Params) (tg dest reg : Nat) (t t' : Tr) (tg' : Nat) (e : Exc)
+    (h : requestResponse p tg dest p.tRead reg [] t = (.error e, tg', t')) :
+    getRegister p tg dest reg t = (.error e, tg', t') := by
+  unfold getRegister; rw [h]
+
+/-- **`set_register` returns only after an ACK for the written register from the addressed module** -/
+theorem setRegister_sound (p : Params) (tg dest reg : Nat) (data : Bytes) (t t' : Tr) (tg' : Nat)
+    (h : setRegister p tg dest reg data t = (.ok (), tg', t')) :
+    ∃ r, requestResponse p tg dest p.tWrite reg data t = (.ok r, tg', t') ∧
+      r.mtype = p.tAck ∧ r.mtype ≠ p.tNack ∧ r.reg = reg ∧ r.src = dest ∧ r.dest = p.hostBase + tg' := by
+  unfold setRegister at h
+  have hrr := request_response p tg dest p.tWrite reg data t
+  split at h
+  · simp at h
+  · rename_i r tg1 t1 heq
+    rw [heq] at hrr
+    simp only at hrr
+    split at h; · simp at h
+    split at h; · simp at h
+    split at h; · simp at h
+    rename_i h1 h2 h3
+    simp only [Prod.mk.injEq, Except.ok.injEq, true_and] at h
+    obtain ⟨htg, ht⟩ := h
+    subst htg ht
+    exact ⟨r, heq, by simpa using h2, h1, by simpa using h3, hrr.1, hrr.2.1⟩
+
+theorem setRegister_rejects (p : Params) (tg dest reg : Nat) (data : Bytes) (t t' : Tr) (tg' : Nat) (r : Msg)
+    (hrr : requestResponse p tg dest p.tWrite reg data t = (.ok r, tg', t'))
+    (hbad : r.mtype ≠ p.tAck ∨ r.reg ≠ reg) :
+    setRegister p tg dest reg data t = (.error .instrument, tg', t') := by
+  unfold setRegister
+  rw [hrr]
+  simp only
+  by_cases h1 : r.mtype = p.tNack
+  · simp [h1]
+  · by_cases h2 : r.mtype = p.tAck
+    · have h3 : r.reg ≠ reg := by rcases hbad with h | h; exact absurd h2 h; exact h
+      simp [h1, h2, h3]
+    · simp [h1, h2]
+
+/-- **`get_register` hands the driver exactly the device's data**: the module answers the READ with a DATAGRAM for the
+same register — any data (reserved bytes, any length), cut into arbitrary transfers -/
+theorem getRegister_delivers (p : Params) (h : IbWF p) (ht : ibTypesWf p = true) (toggle dest reg : Nat)
+    (req reply : Msg) (chunks : List Bytes) (s : List Seg) (wr : List Bytes) (rd : Nat)
+    (hreqdef : req = { dest := dest, src := p.hostBase + ((toggle + 1) &&& 1), mtype := p.tRead, reg := reg, data := [] })
+    (hreq : Valid p req) (hsrc : reply.src = dest) (hdst : reply.dest = req.src) (hd : reply.dest < 256) (hs : reply.src < 256)
+    (hty : reply.mtype = p.tDatagram) (hrg : reply.reg = reg)
+    (hne : ∀ c ∈ chunks, c ≠ []) (hflat : chunks.flatten = frame p reply) :
+    getRegister p toggle dest reg { buf := [], script := chunks.map Seg.data ++ s, written := wr, reads := rd }
+      = (.ok reply.data, (toggle + 1) &&& 1, { buf := [], script := s, written := wr ++ [frame p req], reads := rd + 1 }) := by
+  simp only [ibTypesWf, Bool.and_eq_true, bne_iff_ne, ne_eq, List.contains_eq_mem, List.all_eq_true, decide_eq_true_eq] at ht
+  obtain ⟨⟨⟨⟨⟨⟨⟨⟨t1, t2⟩, t3⟩, t4⟩, t5⟩, t6⟩, t7⟩, t8⟩, t9⟩ := ht
+  have hregv : reg < 256 := by have := hreq.reg; rw [hreqdef] at this; exact this
+  have hrep : Decodable p reply := ⟨hd, hs, by rw [hty]; exact ⟨by simpa using t6, t9 _ (by simpa using t6)⟩, by rw [hrg]; exact hregv⟩
+  have hrr := request_response_delivers p h toggle dest p.tRead reg [] req reply chunks s wr rd hreqdef hreq hrep
+    (by rw [hsrc, hreqdef]) hdst hne hflat
+  unfold getRegister
+  rw [hrr]
+  simp only
+  rw [if_neg (by rw [hty]; exact fun e => t1 e.symm), if_neg (by simp [hty]), if_neg (by simp [hrg])]
+
+/-- **`set_register` returns after the module's ACK** for the written register, whatever data was written -/
+theorem setRegister_delivers (p : Params) (h : IbWF p) (ht : ibTypesWf p = true) (toggle dest reg : Nat) (data : Bytes)
+    (req reply : Msg) (chunks : List Bytes) (s : List Seg) (wr : List Bytes) (rd : Nat)
+    (hreqdef : req = { dest := dest, src := p.hostBase + ((toggle + 1) &&& 1), mtype := p.tWrite, reg := reg, data := data })
+    (hreq : Valid p req) (hsrc : reply.src = dest) (hdst : reply.dest = req.src) (hd : reply.dest < 256) (hs : reply.src < 256)
+    (hty : reply.mtype = p.tAck) (hrg : reply.reg = reg)
+    (hne : ∀ c ∈ chunks, c ≠ []) (hflat : chunks.flatten = frame p reply) :
+    setRegister p toggle dest reg data { buf := [], script := chunks.map Seg.data ++ s, written := wr, reads := rd }
+      = (.ok (), (toggle + 1) &&& 1, { buf := [], script := s, written := wr ++ [frame p req], reads := rd + 1 }) := by
+  simp only [ibTypesWf, Bool.and_eq_true, bne_iff_ne, ne_eq, List.contains_eq_mem, List.all_eq_true, decide_eq_true_eq] at ht
+  obtain ⟨⟨⟨⟨⟨⟨⟨⟨t1, t2⟩, t3⟩, t4⟩, t5⟩, t6⟩, t7⟩, t8⟩, t9⟩ := ht
+  have hregv : reg < 256 := by have := hreq.reg; rw [hreqdef] at this; exact this
+  have hrep : Decodable p reply := ⟨hd, hs, by rw [hty]; exact ⟨by simpa using t5, t9 _ (by simpa using t5)⟩, by rw [hrg]; exact hregv⟩
+  have hrr := request_response_delivers p h toggle dest p.tWrite reg data req reply chunks s wr rd hreqdef hreq hrep
+    (by rw [hsrc, hreqdef]) hdst hne hflat
+  unfold setRegister
+  rw [hrr]
+  simp only
+  rw [if_neg (by rw [hty]; exact fun e => t2 e.symm), if_neg (by simp [hty]), if_neg (by simp [hrg])]
+
+
 /-! ### non-vacuity: the hypotheses are met by the generated constants and by messages full of reserved bytes -/
 
 theorem gen_interbus : IbWF Gen.Layouts.interbus := ibWF_of _ gen_interbus_wf
